@@ -14,6 +14,8 @@ Mirrors `memento.py` (`__init__` registration and generation bump, `clone_with`,
   (`clone_with`: copies `_calculated_version` and `_hash_rules`) or an unregistered wrapper (no version,
   no rules). It is *live* while its name is still bound to the function object it wraps.
 * `gen` / `cache` are `_global_fn_generation` / `_global_fn_version_cache`.
+* Functions of other packages (`defForeign`) get no rule; the symbols bound to them are watched without a rule (fix F27:
+  `HashRuleSet.watched_symbols`, `_watched_symbols`), so re-binding such a symbol is noticed like any other change.
 * `hist` is ghost state (every `Bound` ever created), used only to state invariants.
 Core-only, total, executable. The enumeration order of reference sets is fixed to `id` (C03: irrelevant).
 -/
@@ -77,7 +79,35 @@ structure Inst where
   stamp : Nat                       -- identity of the function object this instance wraps
   cver : Option (List Char)         -- `_calculated_version`
   snaps : List Snap                 -- `_hash_rules`
+  watch : List (Name × Nat) := []   -- `_watched_symbols` (fix F27): symbols that resolved to a function of another package
+                                    --   (no rule is kept for it), with the identity of that function
 deriving Repr
+
+/-- is this definition a plain function of another package? -/
+def isForeign : Def → Bool
+  | .plain false _ _ => true
+  | _ => false
+
+/-- the functions whose sources are scanned for `f`'s version: the targets of its function rules (the root included) -/
+def closureFns (P : Prog) (f : Name) : List Name :=
+  ((rules P id f).filter (fun x => x.kind == .mfn || x.kind == .fn)).map (·.target)
+
+/-- `HashRuleSet.watched_symbols` after `_recompute_version`: every reference, in the source of a function of the closure,
+    that resolves to a function of another package -/
+def watchOf (sym : Sym) (f : Name) : List (Name × Nat) :=
+  (closureFns (progOf sym) f).flatMap (fun p =>
+    match lookup (progOf sym) p with
+    | some d => d.refs.filterMap (fun r =>
+        match lookupB sym r with
+        | some b => if isForeign b.d then some (r, b.stamp) else none
+        | none => none)
+    | none => [])
+
+/-- `resolver() != obj` for a watched symbol -/
+def watchChanged (sym : Sym) (w : Name × Nat) : Bool :=
+  match lookupB sym w.1 with
+  | some b => !(b.stamp == w.2)
+  | none => true
 
 structure St where
   sym : Sym := []
@@ -99,6 +129,7 @@ def cacheSet (c : List (Name × Nat × List Char)) (n : Name) (e : Nat × List C
 inductive Ev
   | defMemento (n : Name) (explicit : Option (List Char)) (tok : Tok) (refs : List Name)
   | defPlain (n : Name) (tok : Tok) (refs : List Name)
+  | defForeign (n : Name) (tok : Tok)       -- `n = <a plain function of another package>`
   | setVar (n : Name) (v : Tok)
   | clone (i : Nat)
   | wrapper (n : Name)
@@ -113,7 +144,7 @@ def recompute (H : Ser → List Char) (s : St) (i : Nat) (inst : Inst) : St × L
   let P := progOf s.sym
   let v := version H P id inst.name
   let snaps := (sortedRules P id inst.name).map (mkSnap s.sym)
-  ({ s with insts := setInst s.insts i { inst with cver := some v, snaps := snaps },
+  ({ s with insts := setInst s.insts i { inst with cver := some v, snaps := snaps, watch := watchOf s.sym inst.name },
             cache := cacheSet s.cache inst.name (s.gen, v) }, v)
 
 /-- `_update_dependencies` followed by reading the version, for instance `i`.
@@ -132,7 +163,7 @@ def query (H : Ser → List Char) (s : St) (i : Nat) : St × Option (List Char) 
         match cacheGet s.cache inst.name with
         | some (g, v) =>
           if g == s.gen && !inst.snaps.isEmpty then
-            if inst.snaps.any (didChange s.sym) then
+            if inst.snaps.any (didChange s.sym) || inst.watch.any (watchChanged s.sym) then
               let (s', v') := recompute H { s with gen := s.gen + 1 } i inst
               (s', some v')
             else
@@ -152,9 +183,12 @@ def step (H : Ser → List Char) (s : St) : Ev → St × Option (List Char)
     -- registration bumps the generation; the new function object is an instance of its own;
     -- instances wrapping the previous object of that name are no longer live (they stay in the list)
     ({ s with sym := bind s.sym n b, next := s.next + 1, hist := b :: s.hist, gen := s.gen + 1,
-              insts := s.insts ++ [⟨n, s.next, none, []⟩] }, none)
+              insts := s.insts ++ [⟨n, s.next, none, [], []⟩] }, none)
   | .defPlain n tok refs =>
     let b : Bound := ⟨s.next, .plain true tok refs⟩
+    ({ s with sym := bind s.sym n b, next := s.next + 1, hist := b :: s.hist }, none)
+  | .defForeign n tok =>
+    let b : Bound := ⟨s.next, .plain false tok []⟩
     ({ s with sym := bind s.sym n b, next := s.next + 1, hist := b :: s.hist }, none)
   | .setVar n v =>
     let b : Bound := ⟨s.next, .var (some v)⟩
@@ -165,7 +199,7 @@ def step (H : Ser → List Char) (s : St) : Ev → St × Option (List Char)
     | none => (s, none)
   | .wrapper n =>
     match lookupB s.sym n with
-    | some b => ({ s with insts := s.insts ++ [⟨n, b.stamp, none, []⟩] }, none)
+    | some b => ({ s with insts := s.insts ++ [⟨n, b.stamp, none, [], []⟩] }, none)
     | none => (s, none)
   | .alias n m =>
     match lookupB s.sym m with
